@@ -10,7 +10,7 @@ from .sym import PathAbort
 from .formula import TRUE
 
 
-MAX_CANDIDATES = 4      # counterexamples kept per claim / obligation kind (from different paths)
+MAX_CANDIDATES = 6      # counterexamples kept per claim / obligation kind (from different paths)
 
 
 def _add_candidate(res, seen_cnt, key, rec):
@@ -171,6 +171,11 @@ def explore(mod_name, func_name, params, opts):
                                {'kind': 'claim', 'name': c['name'], 'values': c.get('model'),
                                 'detail': c.get('detail'), 'path': _log_repr(ctx.log),
                                 'quality': c.get('quality', 0)})
+                for am in c.get('alt_models', []):
+                    _add_candidate(res, seen_cnt, ('claim', c['name']),
+                                   {'kind': 'claim', 'name': c['name'], 'values': am,
+                                    'detail': c.get('detail'), 'path': _log_repr(ctx.log),
+                                    'quality': c.get('quality', 0)})
             elif c['verdict'] != 'unsat':
                 path_ok = False
                 if len(res['unknown']) < 20:
